@@ -35,6 +35,7 @@ CONTROLS = [
     ('treasury update_config keeps the old trader', 'treasury', r'^fn execute_update_config\(', '(_17.0: cosmwasm_std::Addr) = copy _33;', '(_17.0: cosmwasm_std::Addr) = copy (_17.0: cosmwasm_std::Addr);', 'm_c13.py', [], 'saved trader'),
     ('submit accepted one second early', 'staking', r'^fn execute_submit_batch\(', '_34 = Lt(move _35, copy _33);', '_34 = Le(move _35, copy _33);', 'm_c06.py', [], 'submit'),
     ('hash domain separator changed', 'staking', r'^const SENDER_PREFIX: &str', 'const "ibc-wasm-hook-intermediary"', 'const "ibc-wasm-hook-intermediarY"', 'm_c09.py', [], 'derive(channel, sender, prefix)'),
+    ('address accepted when the decoded prefix differs', 'staking', r'^fn validate_address\(', 'switchInt(move _6) -> [0: bb6, otherwise: bb4];', 'switchInt(move _6) -> [0: bb4, otherwise: bb6];', 'm_c14.py', [], 'validate_address: accepted exactly'),
     ('pagination compares with the wrong sign', 'staking', r'^fn paginate_map\(', '_21 = Lt(move _22, copy _20);', '_21 = Le(move _22, copy _20);', 'm_c17.py', ['4'], ''),
 ]
 
